@@ -39,6 +39,12 @@ fn amount(conv: &Converter, q: &ScaledQuantity) -> Option<(String, f64, f64)> {
     }
 }
 
+/// is this unit text exactly one of the names / symbols / aliases the converter's units declare? (data, not the lookup
+/// function: a lookup that guesses — plural stripping, case folding — must not turn an unknown unit into a known one)
+fn declared_key(conv: &Converter, unit: &str) -> bool {
+    conv.all_units().any(|u| u.names.iter().chain(&u.symbols).chain(&u.aliases).any(|k| &**k == unit))
+}
+
 /// the same amount by the independent table of standard definitions (where the unit is in it): a converter whose own
 /// unit definitions are inconsistent with each other (a prefixed unit left behind when its base was re-defined by a later
 /// layer) conserves "its" amounts and still scales 0.2 kg to 400000 g
@@ -77,6 +83,11 @@ fn check_quantity(conv: &Converter, what: &str, pre: &Pre, post: Option<&ScaledQ
             "bad"
         }
         (Pre::Fixed(p), Some(q)) => {
+            if let Some(u) = p.unit() {
+                if !declared_key(conv, u) && q.unit() != Some(u) {
+                    bad.push(("unknown_unit_rewritten".into(), format!("{what}: {u:?} is not a key of any unit of the converter, yet {p} became {q}")));
+                }
+            }
             if !matches!(outcome, ScaleOutcome::Fixed) {
                 bad.push(("outcome_names_wrong_case".into(), format!("{what}: fixed value {p} but outcome {outcome:?}")));
             }
@@ -104,6 +115,11 @@ fn check_quantity(conv: &Converter, what: &str, pre: &Pre, post: Option<&ScaledQ
             }
         }
         (Pre::Linear(p), Some(q)) => {
+            if let Some(u) = p.unit() {
+                if !declared_key(conv, u) && q.unit() != Some(u) {
+                    bad.push(("unknown_unit_rewritten".into(), format!("{what}: {u:?} is not a key of any unit of the converter, yet {p} became {q}")));
+                }
+            }
             if !matches!(outcome, ScaleOutcome::Scaled) {
                 bad.push(("outcome_names_wrong_case".into(), format!("{what}: scalable value {p} but outcome {outcome:?}")));
             }
@@ -216,7 +232,9 @@ pub fn check_case(ctx: &mut Ctx, ps: &mut Parsers, case: &Case, factors: &[f64],
                         Pre::None => None,
                         Pre::Fixed(q) | Pre::Linear(q) => Some(q.clone()),
                     };
-                    if want != post {
+                    // "verbatim": the same variant with the same fields (a fraction stays that fraction) — `==` on numbers
+                    // only compares the numeric value, so the comparison is on the Debug form
+                    if want != post || format!("{want:?}") != format!("{post:?}") {
                         bad.push(("default_scale_not_verbatim".into(), format!("{what}: written {want:?}, default scaling gives {post:?}")));
                     }
                 };
@@ -383,6 +401,21 @@ pub fn run(ctx: &mut Ctx) {
         ps.register("layered", c);
     } else {
         ctx.harness_errors.push("C08: the layered converter does not build".into());
+    }
+    // hand-written quantities the generator does not produce: temperatures (offset units, with the kelvin of the layered
+    // converter), unit texts that are one letter away from a known unit and must stay untouched
+    if ctx.shard == 0 {
+        for (text, ext) in [
+            ("Cool with @liquid nitrogen{77%K} below @limit{=300%K}, keep @water{20%°C} and @oil{350%°F}.", Extensions::all().bits()),
+            ("Wait ~{500%ms} then ~{20-40%ms} then ~{90%min}; add @a{3%gs} @b{2%ls} @c{1%kgs} @d{5%mins} @e{2%tsps} @f{1%Ls}.", (Extensions::all() ^ Extensions::ADVANCED_UNITS).bits()),
+            ("@a{500%ms} @b{3%gs} @c{2%ozs} @d{1%lbss} @e{4%cm s}", Extensions::all().bits()),
+        ] {
+            for conv in ["layered", "bundled"] {
+                let case = Case::new("fixed", text, ext, conv);
+                check_case(ctx, &mut ps, &case, &[1.0, 2.0, 0.5, 3.0], &[2]);
+                ctx.count("handwritten_offset_and_near_miss_units");
+            }
+        }
     }
     let n = ctx.budget(5_000, 1_200_000);
     for i in 0..n {
